@@ -328,7 +328,11 @@ def real_cb(n, bits, phase):
 
     if phase == 0:
         return ComputationalBasisState(n, bits=bits)
-    return ComputationalBasisState._from_tuple((n, bits, phase))
+    if hasattr(ComputationalBasisState, "_from_tuple"):
+        return ComputationalBasisState._from_tuple((n, bits, phase))
+    s = ComputationalBasisState(n, bits=bits)  # private constructor renamed/removed: set the counter directly
+    s._phase = phase
+    return s
 
 
 def canon_state(s) -> str:
@@ -605,6 +609,7 @@ class RealStore:
     def __init__(self, grid):
         self.objs = []
         self.vecs = {}
+        self.seen = set()
         self.grid = grid
         self.snap = []  # canonical reading of every object at creation (purity check on the real code)
 
@@ -762,6 +767,19 @@ def k_hist(ctx: Ctx, reg: Registry):
                         store.snap[oi] = (head, gates_now)
                 else:
                     store.snap.append((head, gates_now))
+                if rparts[0] == "cb" and gates_now != "?" and (oi, gates_now) not in store.seen:
+                    # the property on the real object alone: a basis state's circuit prepares |bits> (independent simulation)
+                    store.seen.add((oi, gates_now))
+                    from oracle import c16_state as orc
+
+                    try:
+                        w = orc.sparse_run(ro.circuit.gates, None)
+                        dfc = orc.sparse_phase_defect(w, orc.sparse_basis(ro.bits, 0)) if w is not None else 9.0
+                    except Exception:  # noqa: BLE001
+                        dfc = 9.0
+                    if dfc > NUM_TOL:
+                        ctx.witness("basis-circuit", "ComputationalBasisState.circuit does not prepare the tracked basis state",
+                                    {"ops": req, "grid": list(grid), "step": si, "object": oi}, {"read": real_read[:300]})
                 mparts = mo.split(" ")
                 if mparts[0] != rparts[0]:
                     bad = (si, f"object {oi}", real_read, mo)
@@ -920,7 +938,22 @@ def oracle_search(ctx: Ctx, budget_s: float, min_iter: int):
             n_eval += 1
             return
         try:
-            s = ComputationalBasisState(n, bits=bits).with_gates_applied(real_seq(rng.choice("LT"), hist))
+            # a derivation chain: the list is applied in random chunks, each parent possibly inspected (.circuit) first
+            s = ComputationalBasisState(n, bits=bits)
+            chain = rng.random() < 0.5
+            k0 = 0
+            while True:
+                k1 = rng.randint(k0 + 1, len(hist)) if (chain and k0 < len(hist)) else len(hist)
+                if chain and rng.random() < 0.5:
+                    s.circuit  # noqa: B018
+                chunk = hist[k0:k1]
+                if chain and len(chunk) == 1 and rng.random() < 0.5:
+                    s = s.with_pauli_gate_applied(real_seq("L", chunk)[0])
+                else:
+                    s = s.with_gates_applied(real_seq(rng.choice("LT"), chunk))
+                k0 = k1
+                if k0 >= len(hist):
+                    break
         except Exception as e:  # noqa: BLE001
             ctx.witness("pauli-track-rejects", f"a valid Pauli gate list is rejected: {exc_name(e)}", {"n": n, "bits": bits, "gates": describe_gates(hist)})
             return
